@@ -53,14 +53,20 @@ def oracle_ledgers(h):
         # ---- deposit acceptance (C02)
         if c.ep == 'deposit' and vb is not None:
             tptb = V(vb, 'tpt')[0]
+            # base winners + reserved tickets = configured winners as long as the filter has not
+            # capped the base winners (C12); a (pointless but legal) deposit after that is sized by
+            # the capped count, which the views do not expose completely: only its cover is checked
+            uncapped = V(vb, 'flags')[1] == 0
             if ok:
                 amt = c.pay[0][2] if c.pay else 0
-                if amt != tptb * h.K:
+                if uncapped and amt != tptb * h.K:
                     out.append(viol('C02', i, 'deposit_amount', 'deposit of %d accepted, tokens-per-ticket x configured winners = %d x %d' % (amt, tptb, h.K)))
+                if not uncapped and (amt % tptb != 0 or amt < tptb * V(vb, 'nrWinning')[0]):
+                    out.append(viol('C02', i, 'deposit_cover', 'deposit of %d accepted, does not cover %d x %d winners' % (amt, tptb, V(vb, 'nrWinning')[0])))
                 deposited_amt = amt
             else:
                 already = V(vb, 'deposited')[0] > 0 or deposited_amt is not None
-                if (c.caller == OWNER and not already and len(c.pay) == 1 and c.pay[0] == (lp, 0, tptb * h.K)):
+                if (uncapped and c.caller == OWNER and not already and len(c.pay) == 1 and c.pay[0] == (lp, 0, tptb * h.K)):
                     out.append(viol('C02', i, 'deposit_rejected', 'exact deposit %d = %d x %d rejected: %s' % (tptb * h.K, tptb, h.K, r['msg'])))
         # ---- completion of all steps
         if W_final is None and all_done(views) and va is not None:
